@@ -34,7 +34,7 @@ func c08prepare() (*Registry, *c08world) {
 	return r, w
 }
 
-const c08nops = 13
+const c08nops = 14
 
 // c08op performs operation k and returns an outcome string.
 func c08op(r *Registry, w *c08world, k int) string {
@@ -89,6 +89,15 @@ func c08op(r *Registry, w *c08world, k int) string {
 			return "UploadSize:" + code(err)
 		}
 		return fmt.Sprint("UploadSize:", wr.Size())
+	case 13:
+		// resume an upload id the registry has not seen before (it creates the session on
+		// demand) and append one byte: concurrent users of that id share one session
+		wr, err := r.PushBlobChunkedResume(vctx, "r", "bmV3LXVwbG9hZA", -1, 0)
+		if err != nil {
+			return "AppendNew:" + code(err)
+		}
+		_, err = wr.Write([]byte("n"))
+		return "AppendNew:" + code(err)
 	default:
 		// commit the shared upload as "x" (its content in the pre-state): succeeds unless an
 		// append got in first
@@ -126,6 +135,9 @@ func c08state(r *Registry, w *c08world) string {
 		if digest.FromBytes(data) != digest.FromBytes([]byte("x")) {
 			s += ";committed-content-mismatch"
 		}
+	}
+	if wr, err := r.PushBlobChunkedResume(vctx, "r", "bmV3LXVwbG9hZA", -1, 0); err == nil {
+		s += fmt.Sprint(";newupload:", wr.Size())
 	}
 	if wr, err := r.PushBlobChunkedResume(vctx, "r", w.uploadID, -1, 0); err == nil {
 		s += fmt.Sprint(";upload:", wr.Size())
